@@ -20,6 +20,7 @@ Variants == { [wpb |-> t[1], wps |-> t[2], ubw |-> t[3]] : t \in Layouts }
 \* direct read (rank_small![0]) and scanned sub-blocks (rank_small![1..4]), upper blocks of one
 \* or two blocks
 LayoutsA == { <<2, 1, 0>>, <<2, 1, 2>>, <<2, 2, 4>>, <<4, 2, 4>>, <<4, 1, 4>> }
+LayoutsC == { <<2, 1, 0>>, <<4, 2, 4>>, <<2, 1, 2>> }
 LayoutsB == { <<2, 1, 0>>, <<4, 1, 0>>, <<2, 1, 2>>, <<2, 1, 4>>, <<2, 2, 2>>, <<4, 2, 4>>, <<4, 1, 8>>, <<4, 4, 4>>,
               <<8, 2, 8>> }
 
